@@ -4,18 +4,18 @@
     FULL STATEMENT (proved below as c09_ser_parse_roundtrip, by structural induction over
     arbitrarily nested arrays/dictionaries; theories/C09/Full.v):
       c09_ser_parse_roundtrip :
-        forall v, wf v = true -> parse (ser raw_name v) = Some (norm v).
-    where [wf] requires regular names, integral reals within i64, object numbers <= 9 999 999
-    and no [i g /R] inside an array (the four known classes, each refuted below by a witness),
+        forall v, wf v = true -> parse (ser esc_iso v) = Some (norm v).
+    where [ser esc_iso] is the repaired writer (names #XX-escaped, ISO 32000-1 7.3.5) and [wf] requires
+    names of bytes (EVERY name), integral reals within i64, object numbers <= 9 999 999
+    and no [i g /R] inside an array (the three open classes, each refuted below by a witness),
     besides the type invariants of the Rust values (i64 integers, u8 bytes, u16 generations).
     The [_partial] theorems are the per-token-class statements the induction is built from;
     c09_lex_nested / c09_parse_nested are its two continuation-style layers.
 
     INDEPENDENT READER (theories/C09/Lex.v, written from ISO 32000-1 7.2/7.3; proofs LexFull.v):
       c09_ser_iso_roundtrip :
-        forall v, iso_wf v = true -> iso_parse (ser raw_name v) = Some (norm v).
-    where [iso_wf] requires ISO-regular names (no white space incl. NUL, no delimiter incl. braces,
-    no '#'), no CR in literal strings and bytes < 256 in hex strings — and nothing else: the
+        forall v, iso_wf v = true -> iso_parse (ser esc_iso v) = Some (norm v).
+    where [iso_wf] requires no CR in literal strings and bytes < 256 in names and hex strings — and nothing else: the
     [i g /R] collision, the i64 bound on integral reals and the object-number bound are flaws of the
     library's reader only.  c09_ser_both_readers: both readers, for [wf] values with [iso_extra]. *)
 From OxVerif Require Import Base.Util C09.Model C09.Tokens C09.FracSweep C09.Proofs C09.Reals C09.Full C09.Lex C09.LexFull.
@@ -28,30 +28,42 @@ Check c09_literal_string_roundtrip : forall s rest, read_lit (esc_str s ++ 41 ::
 Print Assumptions c09_literal_string_roundtrip.
 
 Theorem c09_string_token_partial : forall s rest,
-  lex1 (ser raw_name (OStr s) ++ rest) = (TStr s, rest).
-Proof. exact lex_ser_str. Qed.
-Check c09_string_token_partial : forall s rest, lex1 (ser raw_name (OStr s) ++ rest) = (TStr s, rest).
+  lex1 (ser esc_iso (OStr s) ++ rest) = (TStr s, rest).
+Proof. exact (lex_ser_str esc_iso). Qed.
+Check c09_string_token_partial : forall s rest, lex1 (ser esc_iso (OStr s) ++ rest) = (TStr s, rest).
 Print Assumptions c09_string_token_partial.
 
 (** hex strings: every string of bytes *)
 Theorem c09_hex_token_partial : forall s rest, bytes_ok s = true ->
-  lex1 (ser raw_name (OHex s) ++ rest) = (TStr s, rest).
-Proof. exact lex_ser_hex. Qed.
-Check c09_hex_token_partial : forall s rest, bytes_ok s = true -> lex1 (ser raw_name (OHex s) ++ rest) = (TStr s, rest).
+  lex1 (ser esc_iso (OHex s) ++ rest) = (TStr s, rest).
+Proof. exact (lex_ser_hex esc_iso). Qed.
+Check c09_hex_token_partial : forall s rest, bytes_ok s = true -> lex1 (ser esc_iso (OHex s) ++ rest) = (TStr s, rest).
 Print Assumptions c09_hex_token_partial.
 
-(** names, emitted raw: exactly the regular ones (no white space, delimiter or '#'; bytes >= 0x80 allowed) *)
-Theorem c09_name_token_partial : forall n rest, regular_name n = true -> good_rest rest ->
+(** names, #XX-escaped by the repaired writer (escape_pdf_name): EVERY name of bytes — white space,
+    delimiters, '#', controls, bytes >= 0x80 — reads back as the same bytes *)
+Theorem c09_name_token_partial : forall n rest, bytes_ok n = true -> good_rest rest ->
+  lex1 (ser esc_iso (OName n) ++ rest) = (TName n, rest).
+Proof. exact lex_ser_name_iso. Qed.
+Check c09_name_token_partial : forall n rest, bytes_ok n = true -> good_rest rest -> lex1 (ser esc_iso (OName n) ++ rest) = (TName n, rest).
+Print Assumptions c09_name_token_partial.
+(** record about the writer before the repair (names raw): exactly the regular names *)
+Theorem c09_name_token_pinned : forall n rest, regular_name n = true -> good_rest rest ->
   lex1 (ser raw_name (OName n) ++ rest) = (TName n, rest).
 Proof. exact lex_ser_name. Qed.
-Check c09_name_token_partial : forall n rest, regular_name n = true -> good_rest rest -> lex1 (ser raw_name (OName n) ++ rest) = (TName n, rest).
-Print Assumptions c09_name_token_partial.
+Check c09_name_token_pinned : forall n rest, regular_name n = true -> good_rest rest -> lex1 (ser raw_name (OName n) ++ rest) = (TName n, rest).
+Print Assumptions c09_name_token_pinned.
+(** the escaper is the identity on names made of kept characters (no output change for them) *)
+Theorem c09_esc_iso_plain_identity : forall n, forallb iso_plain n = true -> esc_iso n = n.
+Proof. exact esc_iso_plain. Qed.
+Check c09_esc_iso_plain_identity : forall n, forallb iso_plain n = true -> esc_iso n = n.
+Print Assumptions c09_esc_iso_plain_identity.
 
 (** integers: all of i64 *)
 Theorem c09_int_token_partial : forall z rest, int_ok z = true -> good_rest rest ->
-  lex1 (ser raw_name (OInt z) ++ rest) = (TInt z, rest).
-Proof. exact lex_ser_int. Qed.
-Check c09_int_token_partial : forall z rest, int_ok z = true -> good_rest rest -> lex1 (ser raw_name (OInt z) ++ rest) = (TInt z, rest).
+  lex1 (ser esc_iso (OInt z) ++ rest) = (TInt z, rest).
+Proof. exact (lex_ser_int esc_iso). Qed.
+Check c09_int_token_partial : forall z rest, int_ok z = true -> good_rest rest -> lex1 (ser esc_iso (OInt z) ++ rest) = (TInt z, rest).
 Print Assumptions c09_int_token_partial.
 
 Theorem c09_decimal_roundtrip : forall n, dval 0 (dec n) = n.
@@ -60,11 +72,11 @@ Check c09_decimal_roundtrip : forall n, dval 0 (dec n) = n.
 Print Assumptions c09_decimal_roundtrip.
 
 Theorem c09_null_bool_token_partial : forall rest, good_rest rest ->
-  lex1 (ser raw_name ONull ++ rest) = (TNull, rest)
-  /\ forall b, lex1 (ser raw_name (OBool b) ++ rest) = (TBool b, rest).
-Proof. intros rest G. split; [apply lex_ser_null | intro; apply lex_ser_bool]; exact G. Qed.
+  lex1 (ser esc_iso ONull ++ rest) = (TNull, rest)
+  /\ forall b, lex1 (ser esc_iso (OBool b) ++ rest) = (TBool b, rest).
+Proof. intros rest G. split; [apply (lex_ser_null esc_iso) | intro; apply (lex_ser_bool esc_iso)]; exact G. Qed.
 Check c09_null_bool_token_partial : forall rest, good_rest rest ->
-  lex1 (ser raw_name ONull ++ rest) = (TNull, rest) /\ forall b, lex1 (ser raw_name (OBool b) ++ rest) = (TBool b, rest).
+  lex1 (ser esc_iso ONull ++ rest) = (TNull, rest) /\ forall b, lex1 (ser esc_iso (OBool b) ++ rest) = (TBool b, rest).
 Print Assumptions c09_null_bool_token_partial.
 
 (** the six fraction digits after trimming denote the same millionths: all 10^6 values *)
@@ -75,20 +87,20 @@ Print Assumptions c09_fraction_digits.
 
 (** reals: every finite value as the writer prints it ({:.6}, trimmed); an integral one comes back as that integer *)
 Theorem c09_real_token_partial : forall neg m rest, real_ok neg m = true -> good_rest rest ->
-  lex1 (ser raw_name (OReal neg m) ++ rest) = (real_tok neg m, rest).
-Proof. exact lex_ser_real. Qed.
-Check c09_real_token_partial : forall neg m rest, real_ok neg m = true -> good_rest rest -> lex1 (ser raw_name (OReal neg m) ++ rest) = (real_tok neg m, rest).
+  lex1 (ser esc_iso (OReal neg m) ++ rest) = (real_tok neg m, rest).
+Proof. exact (lex_ser_real esc_iso). Qed.
+Check c09_real_token_partial : forall neg m rest, real_ok neg m = true -> good_rest rest -> lex1 (ser esc_iso (OReal neg m) ++ rest) = (real_tok neg m, rest).
 Print Assumptions c09_real_token_partial.
 
 (** references: the three tokens n, g, R *)
 Theorem c09_ref_tokens_partial : forall n g rest, good_rest rest ->
   (Z.of_N n <=? i64_max)%Z = true -> (Z.of_N g <=? i64_max)%Z = true ->
-  exists r1 r2, lex1 (ser raw_name (ORef n g) ++ rest) = (TInt (Z.of_N n), r1)
+  exists r1 r2, lex1 (ser esc_iso (ORef n g) ++ rest) = (TInt (Z.of_N n), r1)
              /\ lex1 r1 = (TInt (Z.of_N g), r2) /\ lex1 r2 = (TName name_R, rest).
-Proof. exact lex_ser_ref. Qed.
+Proof. exact (lex_ser_ref esc_iso). Qed.
 Check c09_ref_tokens_partial : forall n g rest, good_rest rest ->
   (Z.of_N n <=? i64_max)%Z = true -> (Z.of_N g <=? i64_max)%Z = true ->
-  exists r1 r2, lex1 (ser raw_name (ORef n g) ++ rest) = (TInt (Z.of_N n), r1)
+  exists r1 r2, lex1 (ser esc_iso (ORef n g) ++ rest) = (TInt (Z.of_N n), r1)
              /\ lex1 r1 = (TInt (Z.of_N g), r2) /\ lex1 r2 = (TName name_R, rest).
 Print Assumptions c09_ref_tokens_partial.
 
@@ -99,26 +111,42 @@ Proof. exact lex_esc_name. Qed.
 Check c09_incr_name_roundtrip : forall n rest, bytes_ok n = true -> good_rest rest -> lex1 (47 :: esc_name n ++ rest) = (TName n, rest).
 Print Assumptions c09_incr_name_roundtrip.
 
-(** refuted on the pinned tree (known findings), each by a witness *)
-Theorem c09_name_raw_refuted : exists n, regular_name n = false /\ roundtrips (OName n) = false
-                                   /\ parse (ser raw_name (ODict [(n, OInt 1)])) = None.
-Proof. exact name_raw_refuted. Qed.
-Check c09_name_raw_refuted : exists n, regular_name n = false /\ roundtrips (OName n) = false /\ parse (ser raw_name (ODict [(n, OInt 1)])) = None.
-Print Assumptions c09_name_raw_refuted.
+(** record about the writer BEFORE the repair (finding C09-name-raw, fixed): raw emission breaks
+    'My Image'; the repaired emitter reads it back *)
+Theorem c09_name_raw_refuted_pinned : exists n, regular_name n = false /\ roundtrips_pinned (OName n) = false
+                                   /\ parse (ser raw_name (ODict [(n, OInt 1)])) = None
+                                   /\ roundtrips (OName n) = true
+                                   /\ parse (ser esc_iso (ODict [(n, OInt 1)])) = Some (PDict [(n, PInt 1)]).
+Proof. exact name_raw_refuted_pinned. Qed.
+Check c09_name_raw_refuted_pinned : exists n, regular_name n = false /\ roundtrips_pinned (OName n) = false
+  /\ parse (ser raw_name (ODict [(n, OInt 1)])) = None /\ roundtrips (OName n) = true
+  /\ parse (ser esc_iso (ODict [(n, OInt 1)])) = Some (PDict [(n, PInt 1)]).
+Print Assumptions c09_name_raw_refuted_pinned.
 
-Theorem c09_int_int_nameR_refuted : exists v, wf v = false /\ parse (ser raw_name v) = Some (PArr [PRef 1 0]) /\ roundtrips v = false.
+(** refuted on the current tree (known findings), each by a witness *)
+(** C09-name-nonascii (what is left of the name finding): bytes round-trip, but the reader's String has
+    one char per byte, so the source String "é" (UTF-8 C3 A9) comes back as the String "Ã©" *)
+Theorem c09_name_nonascii_refuted : exists n, wf (OName n) = true /\ ascii_name n = false
+                                   /\ parse (ser esc_iso (OName n)) = Some (PName n)
+                                   /\ strview (PName n) = PName [195; 131; 194; 169] /\ n = [195; 169].
+Proof. exact name_nonascii_refuted. Qed.
+Check c09_name_nonascii_refuted : exists n, wf (OName n) = true /\ ascii_name n = false
+  /\ parse (ser esc_iso (OName n)) = Some (PName n) /\ strview (PName n) = PName [195; 131; 194; 169] /\ n = [195; 169].
+Print Assumptions c09_name_nonascii_refuted.
+
+Theorem c09_int_int_nameR_refuted : exists v, wf v = false /\ parse (ser esc_iso v) = Some (PArr [PRef 1 0]) /\ roundtrips v = false.
 Proof. exact int_int_nameR_refuted. Qed.
-Check c09_int_int_nameR_refuted : exists v, wf v = false /\ parse (ser raw_name v) = Some (PArr [PRef 1 0]) /\ roundtrips v = false.
+Check c09_int_int_nameR_refuted : exists v, wf v = false /\ parse (ser esc_iso v) = Some (PArr [PRef 1 0]) /\ roundtrips v = false.
 Print Assumptions c09_int_int_nameR_refuted.
 
-Theorem c09_real_ge_2p63_refuted : exists v, wf v = false /\ parse (ser raw_name v) = None.
+Theorem c09_real_ge_2p63_refuted : exists v, wf v = false /\ parse (ser esc_iso v) = None.
 Proof. exact real_ge_2p63_refuted. Qed.
-Check c09_real_ge_2p63_refuted : exists v, wf v = false /\ parse (ser raw_name v) = None.
+Check c09_real_ge_2p63_refuted : exists v, wf v = false /\ parse (ser esc_iso v) = None.
 Print Assumptions c09_real_ge_2p63_refuted.
 
-Theorem c09_objnum_refuted : exists v, wf v = false /\ parse (ser raw_name v) = Some (PInt 10000000).
+Theorem c09_objnum_refuted : exists v, wf v = false /\ parse (ser esc_iso v) = Some (PInt 10000000).
 Proof. exact objnum_refuted. Qed.
-Check c09_objnum_refuted : exists v, wf v = false /\ parse (ser raw_name v) = Some (PInt 10000000).
+Check c09_objnum_refuted : exists v, wf v = false /\ parse (ser esc_iso v) = Some (PInt 10000000).
 Print Assumptions c09_objnum_refuted.
 
 Theorem c09_incr_nonascii_refuted : exists n, bytes_ok n = true /\ parse (ser_incr (OName n)) = Some (PName [195; 169]) /\ n = [233].
@@ -127,7 +155,8 @@ Check c09_incr_nonascii_refuted : exists n, bytes_ok n = true /\ parse (ser_incr
 Print Assumptions c09_incr_nonascii_refuted.
 
 (** non-vacuity *)
-Example c09_nonvacuous : wf sample = true /\ parse (ser raw_name sample) = Some (norm sample).
+Example c09_nonvacuous : wf sample_names = true /\ wf_pinned sample_names = false /\ ascii_names sample_names = true
+  /\ parse (ser esc_iso sample_names) = Some (norm sample_names) /\ strview (norm sample_names) = norm sample_names.
 Proof. exact sample_wf_roundtrips. Qed.
 
 (** * The nested theorem (theories/C09/Full.v) *)
@@ -135,10 +164,10 @@ Proof. exact sample_wf_roundtrips. Qed.
 (** layer 1, continuation style: the eager lexer on [ser v] followed by anything that is empty or
     starts with SP, LF or ']' yields [toks v] and continues on the rest *)
 Theorem c09_lex_nested : forall v rest f, wf v = true -> good_rest rest -> (length (toks v) <= f)%nat ->
-  lex_all f (ser raw_name v ++ rest) = toks v ++ lex_all (f - length (toks v)) rest.
+  lex_all f (ser esc_iso v ++ rest) = toks v ++ lex_all (f - length (toks v)) rest.
 Proof. exact lex_all_ser. Qed.
 Check c09_lex_nested : forall v rest f, wf v = true -> good_rest rest -> (length (toks v) <= f)%nat ->
-  lex_all f (ser raw_name v ++ rest) = toks v ++ lex_all (f - length (toks v)) rest.
+  lex_all f (ser esc_iso v ++ rest) = toks v ++ lex_all (f - length (toks v)) rest.
 Print Assumptions c09_lex_nested.
 
 (** the integer arm's look-ahead pushes back exactly what it peeked *)
@@ -171,18 +200,31 @@ Example c09_parse_nested_hyps :
 Proof. exact parse_toks_ser_hyps. Qed.
 
 (** THE property: every well-formed object tree, nested arbitrarily *)
-Theorem c09_ser_parse_roundtrip : forall v, wf v = true -> parse (ser raw_name v) = Some (norm v).
+Theorem c09_ser_parse_roundtrip : forall v, wf v = true -> parse (ser esc_iso v) = Some (norm v).
 Proof. exact ser_parse_roundtrip. Qed.
-Check c09_ser_parse_roundtrip : forall v, wf v = true -> parse (ser raw_name v) = Some (norm v).
+Check c09_ser_parse_roundtrip : forall v, wf v = true -> parse (ser esc_iso v) = Some (norm v).
 Print Assumptions c09_ser_parse_roundtrip.
+(** the same at the level of Rust Strings: when every name is ASCII (any ASCII: white space, delimiters,
+    '#', controls) the names the reader builds ARE the source names *)
+Theorem c09_ser_parse_roundtrip_strings : forall v, wf v = true -> ascii_names v = true ->
+  option_map strview (parse (ser esc_iso v)) = Some (norm v).
+Proof. exact ser_parse_roundtrip_strings. Qed.
+Check c09_ser_parse_roundtrip_strings : forall v, wf v = true -> ascii_names v = true ->
+  option_map strview (parse (ser esc_iso v)) = Some (norm v).
+Print Assumptions c09_ser_parse_roundtrip_strings.
+(** record about the writer before the repair (regular names only) *)
+Theorem c09_ser_parse_roundtrip_pinned : forall v, wf_pinned v = true -> parse (ser raw_name v) = Some (norm v).
+Proof. exact ser_parse_roundtrip_pinned. Qed.
+Check c09_ser_parse_roundtrip_pinned : forall v, wf_pinned v = true -> parse (ser raw_name v) = Some (norm v).
+Print Assumptions c09_ser_parse_roundtrip_pinned.
 
 (** * The same theorem against the ISO-shaped reference reader (theories/C09/Lex.v, LexFull.v) *)
 
 Theorem c09_iso_lex_nested : forall v rest f, iso_wf v = true -> good_rest rest -> (length (itoks v) <= f)%nat ->
-  ilex_all f (ser raw_name v ++ rest) = itoks v ++ ilex_all (f - length (itoks v)) rest.
+  ilex_all f (ser esc_iso v ++ rest) = itoks v ++ ilex_all (f - length (itoks v)) rest.
 Proof. exact ilex_all_ser. Qed.
 Check c09_iso_lex_nested : forall v rest f, iso_wf v = true -> good_rest rest -> (length (itoks v) <= f)%nat ->
-  ilex_all f (ser raw_name v ++ rest) = itoks v ++ ilex_all (f - length (itoks v)) rest.
+  ilex_all f (ser esc_iso v ++ rest) = itoks v ++ ilex_all (f - length (itoks v)) rest.
 Print Assumptions c09_iso_lex_nested.
 
 Theorem c09_iso_parse_nested : forall v, iso_wf v = true -> forall rest fuel, inokw rest = true ->
@@ -192,54 +234,68 @@ Check c09_iso_parse_nested : forall v, iso_wf v = true -> forall rest fuel, inok
   (2 * length (itoks v) <= fuel)%nat -> iparse_toks fuel (itoks v ++ rest) = Some (norm v, rest).
 Print Assumptions c09_iso_parse_nested.
 
-Theorem c09_ser_iso_roundtrip : forall v, iso_wf v = true -> iso_parse (ser raw_name v) = Some (norm v).
+Theorem c09_ser_iso_roundtrip : forall v, iso_wf v = true -> iso_parse (ser esc_iso v) = Some (norm v).
 Proof. exact ser_iso_roundtrip. Qed.
-Check c09_ser_iso_roundtrip : forall v, iso_wf v = true -> iso_parse (ser raw_name v) = Some (norm v).
+Check c09_ser_iso_roundtrip : forall v, iso_wf v = true -> iso_parse (ser esc_iso v) = Some (norm v).
 Print Assumptions c09_ser_iso_roundtrip.
+Theorem c09_ser_iso_roundtrip_pinned : forall v, iso_wf_pinned v = true -> iso_parse (ser raw_name v) = Some (norm v).
+Proof. exact ser_iso_roundtrip_pinned. Qed.
+Check c09_ser_iso_roundtrip_pinned : forall v, iso_wf_pinned v = true -> iso_parse (ser raw_name v) = Some (norm v).
+Print Assumptions c09_ser_iso_roundtrip_pinned.
 
-(** [wf] values without CR in strings and without NUL / braces in names: both readers *)
+(** [wf] values without CR in strings: both readers (names no longer matter: NUL and braces are escaped) *)
 Theorem c09_wf_iso_wf : forall v, wf v = true -> iso_extra v = true -> iso_wf v = true.
 Proof. exact wf_iso_wf. Qed.
 Check c09_wf_iso_wf : forall v, wf v = true -> iso_extra v = true -> iso_wf v = true.
 Print Assumptions c09_wf_iso_wf.
 
 Theorem c09_ser_both_readers : forall v, wf v = true -> iso_extra v = true ->
-  parse (ser raw_name v) = Some (norm v) /\ iso_parse (ser raw_name v) = Some (norm v).
+  parse (ser esc_iso v) = Some (norm v) /\ iso_parse (ser esc_iso v) = Some (norm v).
 Proof. exact ser_both_readers. Qed.
 Check c09_ser_both_readers : forall v, wf v = true -> iso_extra v = true ->
-  parse (ser raw_name v) = Some (norm v) /\ iso_parse (ser raw_name v) = Some (norm v).
+  parse (ser esc_iso v) = Some (norm v) /\ iso_parse (ser esc_iso v) = Some (norm v).
 Print Assumptions c09_ser_both_readers.
 
 (** where the two readers part (candidate input classes for the correspondence) *)
 Theorem c09_iso_cr_refuted : exists v, wf v = true /\ iso_wf v = false
-  /\ parse (ser raw_name v) = Some (norm v)
-  /\ iso_parse (ser raw_name v) = Some (PStr [97; 10; 98]) /\ norm v = PStr [97; 13; 98].
+  /\ parse (ser esc_iso v) = Some (norm v)
+  /\ iso_parse (ser esc_iso v) = Some (PStr [97; 10; 98]) /\ norm v = PStr [97; 13; 98].
 Proof. exact iso_cr_refuted. Qed.
 Check c09_iso_cr_refuted : exists v, wf v = true /\ iso_wf v = false
-  /\ parse (ser raw_name v) = Some (norm v)
-  /\ iso_parse (ser raw_name v) = Some (PStr [97; 10; 98]) /\ norm v = PStr [97; 13; 98].
+  /\ parse (ser esc_iso v) = Some (norm v)
+  /\ iso_parse (ser esc_iso v) = Some (PStr [97; 10; 98]) /\ norm v = PStr [97; 13; 98].
 Print Assumptions c09_iso_cr_refuted.
 
-Theorem c09_iso_name_refuted : exists v1 v2, wf v1 = true /\ wf v2 = true
+Theorem c09_iso_name_refuted_pinned : exists v1 v2, wf_pinned v1 = true /\ wf_pinned v2 = true
   /\ parse (ser raw_name v1) = Some (norm v1) /\ parse (ser raw_name v2) = Some (norm v2)
-  /\ iso_parse (ser raw_name v1) = Some (PName [65]) /\ iso_parse (ser raw_name v2) = Some (PName [65]).
-Proof. exact iso_name_refuted. Qed.
-Check c09_iso_name_refuted : exists v1 v2, wf v1 = true /\ wf v2 = true
+  /\ iso_parse (ser raw_name v1) = Some (PName [65]) /\ iso_parse (ser raw_name v2) = Some (PName [65])
+  /\ iso_parse (ser esc_iso v1) = Some (norm v1) /\ iso_parse (ser esc_iso v2) = Some (norm v2).
+Proof. exact iso_name_refuted_pinned. Qed.
+Check c09_iso_name_refuted_pinned : exists v1 v2, wf_pinned v1 = true /\ wf_pinned v2 = true
   /\ parse (ser raw_name v1) = Some (norm v1) /\ parse (ser raw_name v2) = Some (norm v2)
-  /\ iso_parse (ser raw_name v1) = Some (PName [65]) /\ iso_parse (ser raw_name v2) = Some (PName [65]).
-Print Assumptions c09_iso_name_refuted.
+  /\ iso_parse (ser raw_name v1) = Some (PName [65]) /\ iso_parse (ser raw_name v2) = Some (PName [65])
+  /\ iso_parse (ser esc_iso v1) = Some (norm v1) /\ iso_parse (ser esc_iso v2) = Some (norm v2).
+Print Assumptions c09_iso_name_refuted_pinned.
 
 (** non-vacuity of [iso_wf], [wf] + [iso_extra]; and values outside [wf] the ISO reader reads back *)
 Example c09_iso_nonvacuous : wf isample = true /\ iso_extra isample = true /\ iso_wf isample = true
-  /\ iso_parse (ser raw_name isample) = Some (norm isample).
+  /\ iso_parse (ser esc_iso isample) = Some (norm isample)
+  /\ wf sample_names = true /\ iso_extra sample_names = false
+  /\ iso_parse (ser esc_iso (OArr [OName (b "My Image"); OName [65; 0; 66]; OName (b "A{B}#"); ODict [(b "k 1", OName (b "(x)"))]]))
+     = Some (norm (OArr [OName (b "My Image"); OName [65; 0; 66]; OName (b "A{B}#"); ODict [(b "k 1", OName (b "(x)"))]])).
 Proof. exact isample_ok. Qed.
 Example c09_iso_reads_known_classes : wf isample2 = false /\ iso_wf isample2 = true
-  /\ iso_parse (ser raw_name isample2) = Some (norm isample2).
+  /\ iso_parse (ser esc_iso isample2) = Some (norm isample2).
 Proof. exact isample2_ok. Qed.
 
-(** link to the verdict: on a [wf] value, channel [ser] never yields code 2 (model = implementation
-    but property fails) — a property failure on such a value is always also a model difference *)
-Theorem c09_ser_code_not_2 : forall v bs p, wf v = true -> ser_code (v, bs, p) <> 2.
-Proof. exact ser_code_not_2. Qed.
-Check c09_ser_code_not_2 : forall v bs p, wf v = true -> ser_code (v, bs, p) <> 2.
-Print Assumptions c09_ser_code_not_2.
+(** link to the verdict.  FULL STATEMENT (not re-proved after the String-level comparison was added to
+    [ser_code]; it needs soundness of opobj_eqb and that canon commutes with strview on ASCII names):
+      forall v bs p, wf v = true -> ascii_names v = true -> ser_code (v, bs, p) <> 2.
+    Proved part: implementation bytes equal to the model's parse, in the model, to [norm v]; together with
+    c09_ser_parse_roundtrip_strings this is what the full statement rests on. *)
+Theorem c09_ser_code_model_parse_partial : forall v bs, wf v = true -> bytes_eqb (ser esc_iso v) bs = true ->
+  option_map canon (parse bs) = Some (canon (norm v)).
+Proof. exact ser_code_model_parse_partial. Qed.
+Check c09_ser_code_model_parse_partial : forall v bs, wf v = true -> bytes_eqb (ser esc_iso v) bs = true ->
+  option_map canon (parse bs) = Some (canon (norm v)).
+Print Assumptions c09_ser_code_model_parse_partial.
